@@ -206,7 +206,23 @@ func VerifC16Respec() {
 		raw, _ := json.Marshal(map[string]interface{}{"a": "1"})
 		pkg.Spec.Config = &runtime.RawExtension{Raw: raw}
 	}
-	c.Put(pkg)
+	// namespaced Package or its cluster-scoped twin (ClusterPackage adapter, ClusterObjectDeployment)
+	cluster := verifrt.Bool("clusterScoped")
+	key := verifk8s.KeyOf(pkg)
+	reqNS := "ns"
+	newPkg, newDep := adapters.NewGenericPackage, adapters.NewObjectDeployment
+	if cluster {
+		m := verifk8s.ToMap(pkg)
+		delete(m["metadata"].(map[string]interface{}), "namespace")
+		cp := &corev1alpha1.ClusterPackage{}
+		verifk8s.FromMap(m, cp)
+		c.Put(cp)
+		key = verifk8s.KeyOf(cp)
+		reqNS = ""
+		newPkg, newDep = adapters.NewGenericClusterPackage, adapters.NewClusterObjectDeployment
+	} else {
+		c.Put(pkg)
+	}
 	var overrides []imageprefix.Override
 	if verifrt.Bool("manager.imagePrefixOverrides") {
 		overrides = []imageprefix.Override{{From: "quay.io/a", To: "mirror.local/a"}}
@@ -218,11 +234,10 @@ func VerifC16Respec() {
 	}
 	puller := &vPuller{}
 	deployer := &vDeployer{}
-	ctl := newGenericPackageController(adapters.NewGenericPackage, adapters.NewObjectDeployment, c, verifk8s.NewClient(), logr.Discard(),
+	ctl := newGenericPackageController(newPkg, newDep, c, verifk8s.NewClient(), logr.Discard(),
 		vScheme(), puller, deployer, nil, modifier, overrides)
 	ctl.unpackReconciler.environmentSink = vEnvSink{}
-	req := ctrl.Request{NamespacedName: types.NamespacedName{Namespace: "ns", Name: "pkg"}}
-	key := verifk8s.KeyOf(pkg)
+	req := ctrl.Request{NamespacedName: types.NamespacedName{Namespace: reqNS, Name: "pkg"}}
 	pass := func() error {
 		n := len(c.Calls)
 		_, err := ctl.Reconcile(context.Background(), req)
